@@ -1,8 +1,21 @@
 import CelmaVerif.Lemmas.Groups
 import CelmaVerif.Lemmas.GroupsDispatch
 import CelmaVerif.Lemmas.GroupsCross
+import CelmaVerif.Lemmas.GroupsExamples
 /-
   C08 — evaluating through an argument group equals one handler owning all arguments.
+
+  Property theorems only; the lemmas are in Lemmas/Groups*.lean.  `groupsEval`, `offer`, `memberCfg`,
+  `groupDests` model `Groups::evalArguments` after the two `fix:` commits 4bb8db8 (member end checks)
+  and 247ec56 (stale last-argument marker); `offerHead` is the loop body of the pinned commit.
+
+  Full statement (not provable, see the findings below):
+    theorem C08_group_equiv (cfg inits argMember globMember order argv) :
+      GroupAgrees (evalArguments cfg (cfg.initState inits) {} argv)
+                  (groupDests cfg argMember order <$> groupsEval cfg inits argMember globMember order argv)
+  Proved: `C08_group_equiv_partial`, under `GroupWellFormed` (abbreviations off, keys pairwise
+  non-clashing, no positional argument, constraint partners and the arguments of a handler constraint
+  inside one member) for command lines without the word `!` and without a comma (`ArgvPlain`).
 -/
 namespace CelmaVerif.Props.C08
 open CelmaVerif CelmaVerif.ProgArgs CelmaVerif.Keys
@@ -141,5 +154,180 @@ theorem C08_finding_group_abbreviation :
                        { key := ⟨none, "num".toList⟩, kind := .int, vmode := .required, card := .unlimited }],
               abbr := true } [.int 0, .int 0] [0, 1] [] [0, 1] ["p".toList, "--num".toList, "3".toList]) := by
   decide +kernel
+
+/-! ### the equivalence -/
+
+/-- Evaluating through a group equals one handler owning all arguments (partial: hypotheses below).
+    The configuration `cfg` is distributed over the members named in `order` (`argMember[a]` owns
+    argument `a`, `globMember[g]` owns handler constraint `g`) and the distribution is well formed
+    (`GroupWellFormed`): abbreviations are off; the keys of all arguments are pairwise non-clashing;
+    there is no positional argument; a key mentioned in a `requires`/`excludes` constraint of an
+    argument designates no argument and no constraint key of another member; the arguments listed in
+    a handler constraint belong to the member that owns the constraint; every member is registered
+    once and every argument / handler constraint belongs to a registered member.  One initial value
+    per argument.  The command line contains neither the word `!` nor a comma (`ArgvPlain`).
+    Then (`GroupAgrees`):
+    * the single handler accepts ⇒ the group accepts, and the destinations read through the group in
+      the order of `cfg.args` (`groupDests`) carry exactly the argument states (value, value-set and
+      increment flags, cardinality counter) of the single handler;
+    * the single handler throws `e` ⇒ the group throws `e` as well — mandatory, cardinality, value
+      checks, `requires`/`excludes`, all-of/any-of/one-of included — except that an unknown argument
+      is a `std::invalid_argument` for `Handler` and a `std::runtime_error` for `Groups`;
+    * hence the group accepts exactly when the single handler does.
+    What is missing for the full statement: abbreviations (refuted by
+    `C08_finding_group_abbreviation`), the inversion word `!`, a comma inside a typed long key, a
+    positional argument (refuted by the three `C08_witness_…` theorems), and constraints whose
+    partners live in different members (not expressible through `Groups` at all: a member's
+    `requires` can only name its own arguments). -/
+theorem C08_group_equiv_partial (cfg : Cfg) (inits : List DVal) (argMember globMember order : List Nat)
+    (argv : List Word) (hwf : GroupWellFormed cfg argMember globMember order) (hne : order ≠ [])
+    (hinits : inits.length = cfg.args.length) (hargv : ArgvPlain argv) :
+    GroupAgrees (evalArguments cfg (cfg.initState inits) {} argv)
+      (groupDests cfg argMember order <$> groupsEval cfg inits argMember globMember order argv) :=
+  group_agrees cfg inits argMember globMember order argv hwf hne hinits hargv
+
+/-- The simulation behind it, member by member: under the same hypotheses, when the single handler
+    accepts with final state `H'`, the group accepts with member states `ms` such that, for the
+    state `H` of the single handler before it forgets its last argument,
+    * `groupDests` is `cfg.args` zipped with `H'.args` (every destination, in definition order);
+    * every member `(c, h)` at position `p` of `order` is the view of `H` through what the member
+      owns (`MemRel`): `h.args` are the states of its own arguments, `h.globals` the states of its
+      own handler constraints, `h.pending` the pending `requires`/`excludes` entries whose key is
+      mentioned in a constraint of one of its own arguments, `h.lastArg` the position of `H`'s last
+      argument if the member owns it (else none). -/
+theorem C08_group_states_partial (cfg : Cfg) (inits : List DVal) (argMember globMember order : List Nat)
+    (argv : List Word) (hwf : GroupWellFormed cfg argMember globMember order) (hne : order ≠ [])
+    (hinits : inits.length = cfg.args.length) (hargv : ArgvPlain argv) (H' : HState)
+    (hs : evalArguments cfg (cfg.initState inits) {} argv = .ok H') :
+    ∃ ms H, groupsEval cfg inits argMember globMember order argv = .ok ms ∧ H' = { H with lastArg := none } ∧
+      groupDests cfg argMember order ms = cfg.args.zip H'.args ∧
+      ∀ (p m : Nat), order[p]? = some m → ∃ h, ms[p]? = some (memberCfg cfg argMember globMember m, h) ∧
+        MemRel cfg (memberView argMember globMember m) H h := by
+  have h := group_sim cfg inits argMember globMember order argv hwf hne hinits hargv
+  rw [hs] at h
+  obtain ⟨ms, H, hg, hH, hinv, hrel⟩ := h
+  refine ⟨ms, H, hg, hH, ?_, ?_⟩
+  · rw [groupDests_eq hwf hinv hrel, hH]
+  · intro p m hp
+    have : (groupViews argMember globMember order)[p]? = some (memberView argMember globMember m) := by
+      unfold groupViews; rw [List.getElem?_map, hp]; rfl
+    exact GRel_at hrel p _ this
+
+/-! ### why the other hypotheses are there (witnesses on the model; abbreviations off in all three) -/
+
+/-- The inversion word: flags `-x` (member 0) and `-y` (member 1), command line `-x ! -y`.  A single
+    handler rejects it (`!` sets its inversion marker, `-y` does not allow inverting); through the
+    group `!` is consumed by member 0 alone and `-y`, handled by member 1, is accepted. -/
+theorem C08_witness_inversion_word :
+    ¬ GroupAgrees
+        (evalArguments
+          { args := [{ key := ⟨some 'x', []⟩, kind := .flag, vmode := .none, card := .unlimited },
+                     { key := ⟨some 'y', []⟩, kind := .flag, vmode := .none, card := .unlimited }], abbr := false }
+          (Cfg.initState
+            { args := [{ key := ⟨some 'x', []⟩, kind := .flag, vmode := .none, card := .unlimited },
+                       { key := ⟨some 'y', []⟩, kind := .flag, vmode := .none, card := .unlimited }], abbr := false }
+            [.flag false, .flag false])
+          {} ["p".toList, "-x".toList, "!".toList, "-y".toList])
+        (groupDests
+          { args := [{ key := ⟨some 'x', []⟩, kind := .flag, vmode := .none, card := .unlimited },
+                     { key := ⟨some 'y', []⟩, kind := .flag, vmode := .none, card := .unlimited }], abbr := false }
+          [0, 1] [0, 1] <$>
+          groupsEval
+            { args := [{ key := ⟨some 'x', []⟩, kind := .flag, vmode := .none, card := .unlimited },
+                       { key := ⟨some 'y', []⟩, kind := .flag, vmode := .none, card := .unlimited }], abbr := false }
+            [.flag false, .flag false] [0, 1] [] [0, 1] ["p".toList, "-x".toList, "!".toList, "-y".toList]) := by
+  decide +kernel
+
+/-- A comma in a typed long key: `--lll` (member 1) defined before `-x` (member 0), members
+    registered in the order 0, 1, command line `--x,lll`.  `ArgumentKey( "x,lll")` equals both keys;
+    the single handler takes the first in definition order (`--lll`), the group the first in member
+    order (`-x`). -/
+theorem C08_witness_comma_key :
+    ¬ GroupAgrees
+        (evalArguments
+          { args := [{ key := ⟨none, "lll".toList⟩, kind := .flag, vmode := .none, card := .unlimited },
+                     { key := ⟨some 'x', []⟩, kind := .flag, vmode := .none, card := .unlimited }], abbr := false }
+          (Cfg.initState
+            { args := [{ key := ⟨none, "lll".toList⟩, kind := .flag, vmode := .none, card := .unlimited },
+                       { key := ⟨some 'x', []⟩, kind := .flag, vmode := .none, card := .unlimited }], abbr := false }
+            [.flag false, .flag false])
+          {} ["p".toList, "--x,lll".toList])
+        (groupDests
+          { args := [{ key := ⟨none, "lll".toList⟩, kind := .flag, vmode := .none, card := .unlimited },
+                     { key := ⟨some 'x', []⟩, kind := .flag, vmode := .none, card := .unlimited }], abbr := false }
+          [1, 0] [0, 1] <$>
+          groupsEval
+            { args := [{ key := ⟨none, "lll".toList⟩, kind := .flag, vmode := .none, card := .unlimited },
+                       { key := ⟨some 'x', []⟩, kind := .flag, vmode := .none, card := .unlimited }], abbr := false }
+            [.flag false, .flag false] [1, 0] [] [0, 1] ["p".toList, "--x,lll".toList]) := by
+  decide +kernel
+
+/-- A positional argument: member 0 defines the positional argument, member 1 the multi-value `-m`;
+    `-m 1 2`.  The single handler stores `[1, 2]` in `m`; in the group member 0 is asked first for the
+    free value `2` and its positional argument takes it. -/
+theorem C08_witness_positional_first :
+    ¬ GroupAgrees
+        (evalArguments
+          { args := [{ key := Key.pos, kind := .str, vmode := .required, card := .unlimited },
+                     { key := ⟨some 'm', []⟩, kind := .vecInt, vmode := .required, card := .unlimited, multi := true }],
+            abbr := false }
+          (Cfg.initState
+            { args := [{ key := Key.pos, kind := .str, vmode := .required, card := .unlimited },
+                       { key := ⟨some 'm', []⟩, kind := .vecInt, vmode := .required, card := .unlimited, multi := true }],
+              abbr := false } [.str [], .vec []])
+          {} ["p".toList, "-m".toList, "1".toList, "2".toList])
+        (groupDests
+          { args := [{ key := Key.pos, kind := .str, vmode := .required, card := .unlimited },
+                     { key := ⟨some 'm', []⟩, kind := .vecInt, vmode := .required, card := .unlimited, multi := true }],
+            abbr := false } [0, 1] [0, 1] <$>
+          groupsEval
+            { args := [{ key := Key.pos, kind := .str, vmode := .required, card := .unlimited },
+                       { key := ⟨some 'm', []⟩, kind := .vecInt, vmode := .required, card := .unlimited, multi := true }],
+              abbr := false } [.str [], .vec []] [0, 1] [] [0, 1] ["p".toList, "-m".toList, "1".toList, "2".toList]) := by
+  decide +kernel
+
+/-! ### non-vacuity
+
+  `exCfg`: member 0 owns `-x` (requires `-y`), `-y` and the handler constraint all-of(x;y); member 1
+  owns the multi-value `-m` and `--name` (Lemmas/GroupsExamples.lean). -/
+
+-- the hypotheses of `C08_group_equiv_partial` are satisfiable, in both registration orders
+example : GroupWellFormed exCfg exArgMember exGlobMember [0, 1] := exCfg_wf _ (Or.inl rfl)
+example : GroupWellFormed exCfg exArgMember exGlobMember [1, 0] := exCfg_wf _ (Or.inr rfl)
+example : ArgvPlain exArgvOk ∧ ArgvPlain exArgvRequires ∧ ArgvPlain exArgvStale := exArgv_plain
+example : exInits.length = exCfg.args.length := rfl
+
+-- accepted: `-m 1 2 -x -y --name=abc`, with the destinations of the single handler
+example : (groupsEval exCfg exInits exArgMember exGlobMember [0, 1] exArgvOk).isOk = true := by decide +kernel
+example : (match groupsEval exCfg exInits exArgMember exGlobMember [1, 0] exArgvOk with
+    | .ok ms => (groupDests exCfg exArgMember [1, 0] ms).map (·.2.dest)
+    | _ => []) = [.flag true, .flag true, .vec [1, 2], .str "abc".toList] := by decide +kernel
+example : GroupAgrees (evalArguments exCfg (exCfg.initState exInits) {} exArgvOk)
+    (groupDests exCfg exArgMember [0, 1] <$> groupsEval exCfg exInits exArgMember exGlobMember [0, 1] exArgvOk) := by
+  decide +kernel
+
+-- rejected by a rule attached inside member 0 (`-x` requires `-y`): `-m 1 -x`; the pinned code,
+-- which only checked mandatory/cardinality at the end, accepted it
+example : (match groupsEval exCfg exInits exArgMember exGlobMember [0, 1] exArgvRequires with
+    | .throw .runtime_error => true | _ => false) = true := by decide +kernel
+example : (match evalArguments exCfg (exCfg.initState exInits) {} exArgvRequires with
+    | .throw .runtime_error => true | _ => false) = true := by decide +kernel
+example : (groupsEvalHead exCfg exInits exArgMember exGlobMember [0, 1] exArgvRequires).isOk = true := by
+  decide +kernel
+
+-- the stale last argument: `-m 1 2 -x 3` is rejected (as by the single handler) by the repaired loop,
+-- while the loop of the pinned commit (`offerHead`) stored `3` in `m`
+example : (match groupsEval exCfg exInits exArgMember exGlobMember [0, 1] exArgvStale with
+    | .throw .runtime_error => true | _ => false) = true := by decide +kernel
+example : (evalArguments exCfg (exCfg.initState exInits) {} exArgvStale).isOk = false := by decide +kernel
+example : (match groupsEvalHead exCfg exInits exArgMember exGlobMember [0, 1] exArgvStale with
+    | .ok ms => (groupDests exCfg exArgMember [0, 1] ms).map (·.2.dest)
+    | _ => []) = [.flag true, .flag false, .vec [1, 2, 3], .str []] := by decide +kernel
+
+-- dispatch: `-y` goes to member 0 in either registration order; cross check: `-m` cannot be added to member 0
+example : groupAddArgument [(kx, 0), (ky, 1)] [[⟨some 'm', []⟩, ⟨none, "name".toList⟩]] ⟨some 'm', "max".toList⟩ 2 =
+    .throw .invalid_argument := rfl
+example : groupAddArgument [(kx, 0), (ky, 1)] [[⟨some 'm', []⟩, ⟨none, "name".toList⟩]] ⟨some 'z', []⟩ 2 =
+    .ok [(kx, 0), (ky, 1), (⟨some 'z', []⟩, 2)] := rfl
 
 end CelmaVerif.Props.C08
